@@ -328,6 +328,24 @@ fn cmd_gen_cases(m: &HashMap<String, String>) {
         }
         return;
     }
+    if kind == "tenths" {
+        // weights that are multiples of 1/10: sums round, so only relations between the library's own answers are judged
+        for i in 0..n {
+            let specs = kinds[i % kinds.len()];
+            let nn = rng.gen_range(minn..=maxn);
+            let p = [0.3, 0.5, 0.8][rng.gen_range(0..3)];
+            let mut case = cases::case_json(specs, &cases::random_graph(&mut rng, specs, nn, p, &[1, 2, 3, 5, 6, 7, 11]), "tenths");
+            case["wdiv"] = serde_json::json!(10);
+            writeln!(out, "{}", case).unwrap();
+        }
+        return;
+    }
+    if kind == "bigcount" {
+        for case in cases::bigcount_cases() {
+            writeln!(out, "{}", case).unwrap();
+        }
+        return;
+    }
     if kind == "shapes" {
         for case in cases::shape_cases(&mut rng, n) {
             writeln!(out, "{}", case).unwrap();
